@@ -271,6 +271,22 @@ def check(pid, tier, seed, replay=None):
         bad_ax = [a for a in axioms if a.split(".")[-1] not in ALLOWED_AXIOMS and a not in ALLOWED_AXIOMS]
         if bad_ax:
             problems.append(("proof", "theorems depend on undeclared axioms: " + ", ".join(bad_ax)))
+    # thorough tier: independent re-check of the compiled property file and everything it depends on
+    coqchk_info = None
+    if pok and tier == "thorough" and not os.environ.get("VERIF_NO_COQCHK"):
+        mod = "V." + prop.PROPS_V[len("theories/"):-2].replace("/", ".")
+        with Lock("coq"):
+            rc, co = sh(["timeout", "7000", "coqchk", "-silent", "-o", "-R", "theories", "V", mod], cwd=COQ, timeout=7100)
+        m = re.search(r"\* Axioms:(.*?)\n\s*\n\* Constants/Inductives relying on type-in-type:(.*?)\n", co, re.S)
+        ax = (m.group(1).strip() if m else "?")
+        coqchk_info = dict(cmd="coqchk -silent -o -R theories V %s" % mod, exit_status=rc, axioms=ax)
+        if rc != 0:
+            problems.append(("proof", "coqchk rejects the compiled development:\n" + co[-2000:]))
+        elif ax != "<none>":
+            bad = [a for a in re.findall(r"^\s*(\S+)", ax, re.M) if a.split(".")[-1] not in ALLOWED_AXIOMS and a not in ALLOWED_AXIOMS]
+            if bad:
+                problems.append(("proof", "coqchk: development depends on undeclared axioms: " + ", ".join(bad)))
+        notes.append("coqchk (independent checker) on %s: exit %d, axioms: %s" % (mod, rc, ax))
     hy = hygiene([pid] + list(getattr(prop, "DEPS", [])))
     if hy:
         problems.append(("proof", "forbidden construct in the development:\n" + "\n".join(hy[:20])))
@@ -383,6 +399,7 @@ def check(pid, tier, seed, replay=None):
                   known=[dict(id=k, cases=v[1]) for k, v in known_hits.items()],
                   exhaustive=bool(getattr(prop, "EXHAUSTIVE", False)),
                   notes=notes + drive_extra.get("notes", []),
+                  **({"coqchk": coqchk_info} if coqchk_info else {}),
                   **drive_extra.get("coverage", {})),
               assumptions=prop.ASSUMPTIONS, wall_s=round(time.time() - t0, 2), violations=len(violation_lines))
     json.dump(ev, open(os.path.join(ROOT, "evidence", pid + ".json"), "w"), indent=1)
